@@ -103,9 +103,42 @@ def gen_cross_join(rng):
     return {"main": main}
 
 
+def gen_late_join(rng):
+    """C12: join() more than a minute after the thread finished — the finished thread has meanwhile given up waiting for a
+    joiner, logged its result and (if its parent is a Thread) taken itself out of its parent's list"""
+    def leaf():
+        return [["ret", rng.randrange(len(VALUES))] if rng.random() < 0.75 else ["raise"]]
+    if rng.random() < 0.5:
+        # children of the main thread
+        main = [["spawn", leaf()]]
+        if rng.random() < 0.5:
+            main.append(["spawn", leaf()])
+        main.append(["sleep", rng.choice([61.0, 75.0, 125.0])])
+        main.append(["join", 0])
+        if len(main) > 3 and rng.random() < 0.7:
+            main.append(["join", 1] if rng.random() < 0.6 else ["join_all"])
+        if rng.random() < 0.4:
+            main.append(["join", 0])          # a second time
+    else:
+        # children of a thread that lives on
+        prog = [["spawn", leaf()]]
+        if rng.random() < 0.5:
+            prog.append(["spawn", leaf()])
+        prog.append(["sleep", rng.choice([61.0, 75.0])])
+        prog.append(["join", 0])
+        if len(prog) > 3 and rng.random() < 0.6:
+            prog.append(["join", 1])
+        prog.append(["ret", rng.randrange(len(VALUES))])
+        main = [["spawn", prog], ["join", 0]]
+    main.append(["main_stop"])
+    return {"main": main}
+
+
 def gen_scenario(rng, prop="C10"):
     if prop == "C11" and rng.random() < 0.3:
         return gen_family(rng)
+    if prop == "C12" and rng.random() < 0.12:
+        return gen_late_join(rng)
     if prop == "C10" and rng.random() < 0.25:
         return gen_cross_join(rng)
     if prop == "C12" and rng.random() < 0.2:
@@ -143,7 +176,7 @@ def shape(sc):
                 s += "{" + f(a[1]) + "}"
             else:
                 s += {"join": "j", "release": "r", "stop": "s", "wait_stop": "w", "raise": "!", "ret": ".", "join_all": "J", "main_stop": "M",
-                      "join_node": "n", "timed": "t"}[a[0]]
+                      "join_node": "n", "timed": "t", "sleep": "z"}[a[0]]
         return s
     return f(sc["main"])
 
@@ -268,11 +301,16 @@ class TracedAll(dict):
         return vs
 
 
+def _has_sleep(prog):
+    return any(a[0] == "sleep" or (a[0] in ("spawn", "spawn_orphan") and _has_sleep(a[1])) for a in prog)
+
+
 def run_scenario(sc, chooser=None, seed=0, max_steps=30000):
     ds.install()
     ds.reset_globals()
     from mo_threads import threads, till, signals
-    sched = ds.Sched(chooser=chooser, seed=seed, max_steps=max_steps, horizon=3.0)
+    long_run = _has_sleep(sc["main"])
+    sched = ds.Sched(chooser=chooser, seed=seed, max_steps=(120000 if long_run else max_steps), horizon=(140.0 if long_run else 3.0))
     st = {"viol": [], "nodes": {}, "next": 1, "kids": {}, "outcome": {}, "join_results": [], "order": [], "targets_done": 0,
           "tills": 0, "seen": 0}
     RealSignal = signals.Signal
@@ -437,6 +475,8 @@ def run_scenario(sc, chooser=None, seed=0, max_steps=30000):
             do_stop(nid, kids[a[1]], a)
         elif a[0] == "wait_stop":
             (please_stop | till.Till(seconds=0.3)).wait()
+        elif a[0] == "sleep":
+            sched.vsleep(a[1])
         elif a[0] == "timed":
             # something that needs the timers after the thread was asked to stop (flushing with a deadline, a retry pause)
             t0 = sched.clock
@@ -535,9 +575,21 @@ def run_scenario(sc, chooser=None, seed=0, max_steps=30000):
     ds._shim_main.vt = mvt
     ds._shim_main._started = True
     ds._shim_main.name = "MainThread"
+    # the sixty seconds a finished thread waits for a joiner: when that Till fires, the trace says so
+    orig_till_cls = threads.Till
+
+    def linger_till(*a, **k):
+        t = orig_till_cls(*a, **k)
+        if k.get("seconds") == 60 and sys._getframe(1).f_code.co_name == "_run":
+            nid = _me_node()
+            if nid is not None:
+                t.then(lambda: sched.note("env", "expire", nid))
+        return t
+    threads.Till = linger_till
     try:
         outcome = sched.run()
     finally:
+        threads.Till = orig_till_cls
         ds.ShimThread.start = orig_shim_start
         threads.Signal = old_signal
         threads.BaseThread.children = old_children
